@@ -603,21 +603,21 @@ package argmapper
 //@   loop 1 invariant forall(i, int, imp(0 <= i && i < idx1 && typeis(vs[i], *typedOutputVertex), as(vs[i], *typedOutputVertex).Value == vfield(lastStruct, f.output.typedValues[as(vs[i], *typedOutputVertex).Type].index)))
 
 //@ func newCallState
-//@   ensures result != nil && fresh(result) && result.NamedValue != nil && result.TypedValue != nil && result.InputSet != nil && fresh(result.InputSet) && fresh(result.NamedValue) && fresh(result.TypedValue) && !valid(result.Value) && forall(k, any, !has(result.InputSet, k))
-//@   assigns callState, map[string]reflect.Value, map[reflect.Type]reflect.Value, map[interface{}]graph.Vertex
+//@   ensures result != nil && fresh(result) && result.NamedValue != nil && result.TypedValue != nil && result.InputSet != nil && fresh(result.InputSet) && fresh(result.NamedValue) && fresh(result.TypedValue) && !valid(result.Value) && forall(k, any, !has(result.InputSet, k)) && result.visiting != nil && fresh(result.visiting)
+//@   assigns callState, map[string]reflect.Value, map[reflect.Type]reflect.Value, map[interface{}]graph.Vertex, VisitM
 //@   modifies nothing
 
 // ---------------------------------------------------------------- call.go: reachTarget, Call (C02 C04 C09)
 //@ sort ArgMap = map[interface{}]reflect.Value
 //@ func (*Func).reachTarget
-//@   requires g != nil && state != nil && state.InputSet != nil && state.NamedValue != nil && state.TypedValue != nil
+//@   requires g != nil && state != nil && state.InputSet != nil && state.NamedValue != nil && state.TypedValue != nil && state.visiting != nil
 //@   requires [no-earlier-failure] failed == nil
 //@   ensures  [success-means-no-converter-failed] imp(result1 == nil, failed == nil && result0 != nil)
 //@   ensures  [failing-converter-error-returned-verbatim] imp(failed != nil, result1 == failed)
 //@   ensures  [error-means-no-arguments] imp(result1 != nil, result0 == nil)
 //@   ensures  planning == old(planning)
 //@   assigns  graph.Graph, Outer, Inner, HashM, VisitM, ItemM, []graph.Vertex, [][]graph.Vertex, []*graph.distQueueItem, *graph.distQueue, graph.distQueueItem, valueVertex.Value, typedArgVertex.Value, typedOutputVertex.Value, valueVertex, typedArgVertex, callState, NamedM, TypedM, ArgMap, map[interface{}]graph.Vertex, []*Value, Value, valueInternal, ErrArgumentUnsatisfied, Result, structValue, Func.onceResult, Func.execs, []interface{}, []error, []reflect.Value, multierror.Error, rvstore, rvfresh, nexec, failed, sawMissing, missAt, lastStruct, fin, frozen, cnt, reported, dvisited, kpos, spos
-//@   modifies forall(x, *valueVertex, true), forall(x, *typedArgVertex, true), forall(x, *typedOutputVertex, true), forall(x, *Func, true), state, state.NamedValue, state.TypedValue, state.InputSet
+//@   modifies forall(x, *valueVertex, true), forall(x, *typedArgVertex, true), forall(x, *typedOutputVertex, true), forall(x, *Func, true), state, state.NamedValue, state.TypedValue, state.InputSet, state.visiting
 //@   after "for _, v := range paths[i] {" assert [self-dependency-detected-on-the-whole-path] forall(j, int, imp(0 <= j && j < len(paths[i]) && paths[i][j] == target, len(unsatisfied) > 0))
 //@   loop 5 invariant forall(j, int, imp(0 <= j && j < idx5 && paths[i][j] == target, len(unsatisfied) > 0)) && len(unsatisfied) >= 0
 //@   loop 6 invariant failed == nil
